@@ -186,7 +186,7 @@ impl Prop for C14 {
 			Attempt { val: last.clone(), pres: PresCfg::plain(), via: 0 },
 			Attempt {
 				val: val::gen_val(rng, &env, &schema, &vcfg),
-				pres: PresCfg { seed: rng.next_u64(), reorder: true, omit_nullable: false, record_as_map: false, len_none: allow_slow, bytes_as_seq: allow_slow },
+				pres: PresCfg { seed: rng.next_u64(), reorder: true, omit_nullable: false, record_as_map: false, len_none: allow_slow, bytes_as_seq: allow_slow, alt_calls: false },
 				via: 0,
 			},
 		];
